@@ -348,4 +348,38 @@ def run(ctx):
             [os_.topk_accurate(sc, 1, [1.0, 1.0 / 3.49, 1.0], 1),
              os_.topk_accurate(sc, 1, [1.0, 1.0 / 3.51, 1.0], 1),
              os_.topk_accurate(sc, 0, [1.0, 1.0 / 3.51, 1.0], 2)], [True, False, True])
+  # --- hand-computed literals for the widened input classes ----------------------
+  mm = os_.min_max_count([[-3.0, -1.5], [-7.0]])
+  expect('minmax all negative', [mm['count'], mm['min'], mm['max']], [3, -7.0, -1.5])
+  mm = os_.min_max_count([[[1.0, -2.0], [3.0, -4.0]], [[2.0, -9.0]]], axis=0)
+  expect('minmax axis0 negative column', mm['min'] + mm['max'], [1.0, -9.0, 3.0, -2.0])
+  mm = os_.min_max_count([[-1, -2], [-5, 1]], score='sum')
+  expect('minmax batch sums', [mm['min'], mm['max']], [-4, -3])
+  expect('cce zero off-class', os_.categorical_cross_entropy((1, 0, 0), (0.5, 0.5, 0.0)),
+         0.6931471805599453)
+  expect('cce one-hot', os_.categorical_cross_entropy((0, 1), (0.0, 1.0)), 0.0)
+  expect_eq('cce impossible true class',
+            os_.categorical_cross_entropy((1, 0), (0.0, 1.0)), float('inf'))
+  # request order / repeated ks: precision@1 = 0, precision@2 = 1/2 per row
+  yt2, yp2 = [['a'], ['b']], [['x', 'a'], ['y', 'b']]
+  expect('retrieval k order', orc.oracle(yt2, yp2, [2, 1, 2])['precision'], [0.5, 0.0, 0.5])
+  cfg = dict(input_type='multiclass-multioutput', average='micro', pos_label=1,
+             vocab=None, k_list=[2, 1, 2])
+  expect('classification k order', oc.oracle(cfg, yt2, yp2)['values']['recall'],
+         [1.0, 0.0, 1.0])
+  # a query that retrieved nothing: precision 0 for that row, mean over 2 rows
+  ret = orc.oracle([['a'], ['b']], [['a', 'x'], []], [2])
+  expect('retrieval empty ranking', [ret['precision'][0], ret['recall'][0],
+                                     ret['false_discovery_rate'][0],
+                                     ret['_alt']['false_discovery_rate'][0]],
+         [0.25, 0.5, 0.25, 0.75])
+  # probability == threshold is not above it; the same item decides both counts
+  thr = orc.thresholded_oracle([['a', 'b']], [['a', 'b', 'c']], [[0.9, 0.7, 0.7]], (0.7,))
+  expect('thresholded tie', [thr['precision'][0], thr['recall'][0]], [1.0, 0.5])
+  thr = orc.thresholded_oracle([['a']], [['a']], [[0.1]], (0.1,), quantize=orc.to_float32)
+  expect('thresholded tie float32', thr['precision'] + thr['recall'], [0.0, 0.0])
+  expect_eq('float32 rounding', orc.to_float32(0.7), 0.699999988079071)
+  expect('pearson large offset', os_.r_regression(
+      [1e8, 1e8 + 1, 1e8 + 2, 1e8 + 3, 1e8 + 4], [0.0, 1.0, 2.0, 3.0, 5.0]),
+         0.9863939238321437)
   return fails
